@@ -48,3 +48,31 @@ func VerifC11TOCTagged(f IndexFile, tags []string) (string, error) {
 	}
 	return strings.Join(parts, ","), nil
 }
+
+// VerifC11BtreeOps builds a btree with the given options from ngrams inserted in the given order (newBtree, insert,
+// freeze) and returns the bucket sizes of the leaves in visiting order, the keys of the inner nodes in visiting order,
+// and find(q) = (bucketIndex, postingIndexOffset) for every query.
+func VerifC11BtreeOps(bucketSize, v int, ngrams []uint64, queries []uint64) (leafSizes []int, innerKeys [][]uint64, finds [][2]int) {
+	bt := newBtree(btreeOpts{bucketSize: bucketSize, v: v})
+	for _, ng := range ngrams {
+		bt.insert(ngram(ng))
+	}
+	bt.freeze()
+	bt.visit(func(no node) {
+		switch n := no.(type) {
+		case *leaf:
+			leafSizes = append(leafSizes, n.bucketSize)
+		case *innerNode:
+			ks := make([]uint64, 0, len(n.keys))
+			for _, k := range n.keys {
+				ks = append(ks, uint64(k))
+			}
+			innerKeys = append(innerKeys, ks)
+		}
+	})
+	for _, q := range queries {
+		a, b := bt.find(ngram(q))
+		finds = append(finds, [2]int{a, b})
+	}
+	return leafSizes, innerKeys, finds
+}
